@@ -1,1 +1,73 @@
-// placeholder
+//! Vec-based model of `Frame` (ordered multimap with removal) and of response iteration.
+
+use super::wire::{AError, DFrame};
+
+#[derive(Clone, Debug, PartialEq, Eq)]
+pub struct FrameModel {
+    pub slots: Vec<Option<(String, String)>>,
+    pub binary: Option<Vec<u8>>,
+}
+
+impl FrameModel {
+    pub fn from_d(d: &DFrame) -> FrameModel {
+        FrameModel { slots: d.fields.iter().cloned().map(Some).collect(), binary: d.binary.clone() }
+    }
+    pub fn remaining(&self) -> Vec<(String, String)> {
+        self.slots.iter().flatten().cloned().collect()
+    }
+    pub fn find(&self, k: &str) -> Option<String> {
+        self.slots.iter().flatten().find(|(kk, _)| kk == k).map(|(_, v)| v.clone())
+    }
+    pub fn get(&mut self, k: &str) -> Option<String> {
+        for s in self.slots.iter_mut() {
+            if let Some((kk, _)) = s {
+                if kk == k {
+                    return s.take().map(|(_, v)| v);
+                }
+            }
+        }
+        None
+    }
+    pub fn fields_len(&self) -> usize {
+        self.slots.iter().flatten().count()
+    }
+    pub fn is_empty(&self) -> bool {
+        self.fields_len() == 0 && self.binary.is_none()
+    }
+}
+
+/// Double-ended cursor over a sequence (model of the iterators).
+#[derive(Clone, Debug)]
+pub struct DequeCursor<T> {
+    pub items: std::collections::VecDeque<T>,
+}
+
+impl<T: Clone> DequeCursor<T> {
+    pub fn new(v: Vec<T>) -> Self {
+        DequeCursor { items: v.into() }
+    }
+    pub fn next(&mut self) -> Option<T> {
+        self.items.pop_front()
+    }
+    pub fn next_back(&mut self) -> Option<T> {
+        self.items.pop_back()
+    }
+    pub fn len(&self) -> usize {
+        self.items.len()
+    }
+}
+
+/// An item of response iteration in the model.
+#[derive(Clone, Debug, PartialEq, Eq)]
+pub enum RItem {
+    Frame(DFrame),
+    Error(AError),
+}
+
+pub fn response_items(frames: &[DFrame], error: &Option<AError>) -> Vec<RItem> {
+    let mut v: Vec<RItem> = frames.iter().cloned().map(RItem::Frame).collect();
+    if let Some(e) = error {
+        v.push(RItem::Error(e.clone()));
+    }
+    v
+}
